@@ -350,6 +350,9 @@ fn run_sequence<K: Kit>(prop: &str, sc: &Scenario, seq: &[Op], faults: (Option<u
 enum Fault {
     UniformFailsAt(usize, u8),
     GoalFailsAt(usize, u8),
+    /// the sampler fails at every call from the k-th on (an exhausted or unsatisfiable sampler)
+    UniformFailsFrom(usize, u8),
+    GoalFailsFrom(usize, u8),
     Bias(f64),
     EmptyStarts,
 }
@@ -359,7 +362,7 @@ fn run_fault<K: Kit>(sc0: &Scenario, f: &Fault, rep: &mut Report) {
     let pk = sc.params.pk;
     let name = pk.name();
     match f {
-        Fault::GoalFailsAt(..) => sc.params.bias = 1.0,
+        Fault::GoalFailsAt(..) | Fault::GoalFailsFrom(..) => sc.params.bias = 1.0,
         Fault::Bias(b) => sc.params.bias = *b,
         _ => {}
     }
@@ -369,6 +372,8 @@ fn run_fault<K: Kit>(sc0: &Scenario, f: &Fault, rep: &mut Report) {
     let class = match f {
         Fault::UniformFailsAt(k, _) => format!("uniform-sampler-error@call{}", if *k == 0 { "0" } else { "k" }),
         Fault::GoalFailsAt(k, _) => format!("goal-sampler-error@call{}", if *k == 0 { "0" } else { "k" }),
+        Fault::UniformFailsFrom(k, kind) => format!("uniform-sampler-fails-from-call{}/kind{kind}", if *k == 0 { "0" } else { "k" }),
+        Fault::GoalFailsFrom(k, kind) => format!("goal-sampler-fails-from-call{}/kind{kind}", if *k == 0 { "0" } else { "k" }),
         Fault::Bias(b) => format!("goal-bias={b}"),
         Fault::EmptyStarts => "empty-start-list".to_string(),
     };
@@ -377,6 +382,8 @@ fn run_fault<K: Kit>(sc0: &Scenario, f: &Fault, rep: &mut Report) {
         match f {
             Fault::UniformFailsAt(k, kind) => rig.space.fail_at.set(Some((*k, *kind))),
             Fault::GoalFailsAt(k, kind) => rig.goal.fail_at.set(Some((*k, *kind))),
+            Fault::UniformFailsFrom(k, kind) => rig.space.fail_from.set(Some((*k, *kind))),
+            Fault::GoalFailsFrom(k, kind) => rig.goal.fail_from.set(Some((*k, *kind))),
             _ => {}
         }
         let pd = if matches!(f, Fault::EmptyStarts) { Arc::new(Pd::<K> { space: rig.space.clone(), start_states: vec![], goal: rig.goal.clone() }) } else { rig.pd.clone() };
@@ -406,7 +413,8 @@ fn run_fault<K: Kit>(sc0: &Scenario, f: &Fault, rep: &mut Report) {
         }
         let fault_reached = match f {
             Fault::UniformFailsAt(k, _) => rig.space.calls.get() > *k,
-            Fault::GoalFailsAt(k, _) => rig.goal.calls.get() > *k,
+            Fault::GoalFailsAt(k, _) | Fault::GoalFailsFrom(k, _) => rig.goal.calls.get() > *k,
+            Fault::UniformFailsFrom(k, _) => rig.space.calls.get() > *k,
             _ => true,
         };
         (results, fault_reached)
@@ -420,12 +428,19 @@ fn run_fault<K: Kit>(sc0: &Scenario, f: &Fault, rep: &mut Report) {
             });
         }
         Err(Caught::Harness(m)) => rep.engine_error(format!("harness panic in fault case {f:?}: {m}")),
+        Err(Caught::WorkCap(n)) => {
+            // millions of callbacks inside one call: it keeps asking the failing sampler (or the
+            // checker) and never comes back - "each call returns normally" is the property
+            rep.violate(format!("C08|{name}|call-does-not-return|{class}"), format!("{class}: a planner call made {n} callbacks without returning"), || {
+                json!({"kind": "fault", "prop": "C08", "scenario": sc.json(), "fault": format!("{f:?}"), "callbacks": n})
+            });
+        }
         Err(_) => rep.engine_error(format!("script exhausted in fault case {f:?} of {}", sc.tag)),
         Ok((results, reached)) => {
             if reached {
                 rep.count("faults_reached_without_unwinding", 1);
                 // the failing call (or the next solve) must report some error
-                let sampler_fault = matches!(f, Fault::UniformFailsAt(..) | Fault::GoalFailsAt(..));
+                let sampler_fault = matches!(f, Fault::UniformFailsAt(..) | Fault::GoalFailsAt(..) | Fault::UniformFailsFrom(..) | Fault::GoalFailsFrom(..));
                 if sampler_fault && results.iter().all(|r| r == "Ok" || r == "Timeout") && !results.iter().any(|r| r != "Ok" && r != "Timeout") {
                     // a Timeout after a sampler failure means the failure was swallowed; Ok may be legitimate only if reached before the fault
                     if results.iter().all(|r| r == "Timeout") {
@@ -506,6 +521,10 @@ pub fn explore(prop: &'static str, tier: &'static str) -> Report {
             for kind in 0..2u8 {
                 faults.push(Fault::UniformFailsAt(k, kind));
                 faults.push(Fault::GoalFailsAt(k, kind));
+                if k <= 3 {
+                    faults.push(Fault::UniformFailsFrom(k, kind));
+                    faults.push(Fault::GoalFailsFrom(k, kind));
+                }
             }
         }
         for b in [-0.1, 1.5, f64::NAN, f64::INFINITY, f64::NEG_INFINITY, 1.0 + f64::EPSILON, -f64::MIN_POSITIVE, -5e-324, 2.0] {
@@ -517,7 +536,7 @@ pub fn explore(prop: &'static str, tier: &'static str) -> Report {
             .par_iter()
             .map(|(sc, f)| {
                 let mut rep = Report::new();
-                if sc.params.pk == Pk::Prm && matches!(f, Fault::GoalFailsAt(..) | Fault::Bias(_)) {
+                if sc.params.pk == Pk::Prm && matches!(f, Fault::GoalFailsAt(..) | Fault::GoalFailsFrom(..) | Fault::Bias(_)) {
                     return rep; // PRM has neither goal sampling nor a bias
                 }
                 with_kit!(sc.kit, run_fault(sc, f, &mut rep));
